@@ -189,11 +189,19 @@ pub fn run_dump(pid: i32, o: &DumpOpts, dest: &mut (impl Write + Seek)) -> DumpR
 }
 
 /// Dump into a plain in-memory cursor.
+/// The cursor already holds 24 bytes and is positioned behind them (a dump appended to existing content);
+/// what the caller gets to judge is what REACHED THE DESTINATION from that position on, not the image
+/// `dump()` returned (the two are equal as long as C09 holds).
 pub fn dump_mem(pid: i32, o: &DumpOpts) -> DumpResult {
-    let mut c = std::io::Cursor::new(Vec::new());
+    const START: usize = 24;
+    let mut c = std::io::Cursor::new(vec![0xEEu8; START]);
+    c.set_position(START as u64);
     let r = run_dump(pid, o, &mut c);
-    crate::checks::universal::dest_check(&r, c.get_ref(), 0);
-    r
+    crate::checks::universal::dest_check(&r, c.get_ref(), START);
+    match r {
+        DumpResult::Ok(_) => DumpResult::Ok(c.into_inner().split_off(START)),
+        other => other,
+    }
 }
 
 /// Dump into a recording destination positioned at `start` over pre-existing content `pre`.
